@@ -309,7 +309,7 @@ impl Gen {
     pub fn rate(&mut self) -> String {
         let rates = ["0", "0.003", "0.01", "0.010", "0.1", "0.25", "0.5", "1", "0.0005", "0.02", "0.15", "0.0126", "0.125", "0.0349"];
         if self.profile == Profile::Malformed && self.rng.pct(20) {
-            return self.rng.pick(&["-0.1", "abc", "1e-3", "", " 0.1", "0..1", "0.02 ", "\t0.1", "+0.1", "0.1_", "_0.1", "0.1\n", "0,1"]).to_string();
+            return self.rng.pick(&["-0.1", "abc", "1e-3", "", " 0.1", "0..1", "0.02 ", "\t0.1", "+0.1", "0.1_", "_0.1", "0.1\n", "0,1", "0.33333333333333333333333333333", "0.02000000000000000000000000005zz"]).to_string();
         }
         if self.rng.pct(3) {
             return "-0.1".to_string();
@@ -427,7 +427,7 @@ impl Gen {
                     m.ask_fee_account = Some("".into());
                 }
                 9 => {
-                    let r = self.rng.pick(&["abc", "", "1e3", "0.5", "-1", ".5", "5.", "1_0", "0.1234567890123456789012345678", "0.02 ", " 0.02", "+0.5", "0.5\n", "0x1"]).to_string();
+                    let r = self.rng.pick(&["abc", "", "1e3", "0.5", "-1", ".5", "5.", "1_0", "0.1234567890123456789012345678", "0.02 ", " 0.02", "+0.5", "0.5\n", "0x1", "0.33333333333333333333333333333", "0.010000000000000000000000000049", "0.00000000000000000000000000005x", "0.1000000000000000000000000000_"]).to_string();
                     if self.rng.pct(50) {
                         m.bid_fee_rate = Some(r);
                         if m.bid_fee_account.is_none() {
@@ -840,7 +840,18 @@ impl Gen {
         }
         let fee_change = |r: &mut Rng, cur: &Option<FeeInfo>| -> (Option<String>, Option<String>) {
             let acct = r.pick(&["frank", "erin", "alice", "carol", "Bad"]).to_string();
-            match r.below(10) {
+            match r.below(12) {
+                10 | 11 => {
+                    // one decimal place more than the current rate, rounding back to it: a different number
+                    let finer = cur.as_ref().and_then(|f| D::parse(&f.rate)).and_then(|d| {
+                        if d.s >= 27 {
+                            return None;
+                        }
+                        let m = if r.pct(50) { d.m * 10 + 4 } else { (d.m * 10).saturating_sub(5) };
+                        Some(D { m, s: d.s + 1 }.render())
+                    });
+                    (finer.or(Some("0.014".into())), Some(acct))
+                }
                 8 | 9 => {
                     // the current rate written with one decimal place fewer (rounded): a different number
                     // unless the dropped digit was a zero
